@@ -14,9 +14,10 @@ from cryptography.x509.oid import NameOID
 _CACHE = {}
 
 
-def make_cert(kind="ec", cn="localhost"):
-    """Self-signed certificate of the given key type -> (cert_pem, key_pem, der)."""
-    key = (kind, cn)
+def make_cert(kind="ec", cn="localhost", serial=None, tag=""):
+    """Self-signed certificate of the given key type -> (cert_pem, key_pem, der).
+    serial: fixed serial number (two different certificates may share subject/issuer and serial); tag: cache discriminator."""
+    key = (kind, cn, serial, tag)
     if key in _CACHE:
         return _CACHE[key]
     if kind == "rsa":
@@ -33,7 +34,7 @@ def make_cert(kind="ec", cn="localhost"):
     name = x509.Name([x509.NameAttribute(NameOID.COMMON_NAME, cn)])
     now = datetime.datetime(2025, 1, 1, tzinfo=datetime.timezone.utc)
     cert = (x509.CertificateBuilder().subject_name(name).issuer_name(name).public_key(k.public_key())
-            .serial_number(x509.random_serial_number()).not_valid_before(now)
+            .serial_number(serial if serial is not None else x509.random_serial_number()).not_valid_before(now)
             .not_valid_after(now + datetime.timedelta(days=36500))
             .add_extension(x509.SubjectAlternativeName([x509.DNSName(cn)]), critical=False)
             .sign(k, alg))
@@ -47,8 +48,8 @@ def make_cert(kind="ec", cn="localhost"):
 class CertFiles:
     """Writes a certificate/key pair to a private temp dir; remove() deletes it."""
 
-    def __init__(self, kind="ec", cn="localhost"):
-        self.cert_pem, self.key_pem, self.der = make_cert(kind, cn)
+    def __init__(self, kind="ec", cn="localhost", serial=None, tag=""):
+        self.cert_pem, self.key_pem, self.der = make_cert(kind, cn, serial, tag)
         self.dir = tempfile.mkdtemp(prefix="vf-cert-")
         self.certfile = os.path.join(self.dir, "cert.pem")
         self.keyfile = os.path.join(self.dir, "key.pem")
